@@ -332,13 +332,15 @@ def c16_cases(ctx, preds, specs):
 # ---------------------------------------------------------------------------------------------------
 
 def loop_plan_sig(plan):
-    items = []
+    per = {}
     for k, v in sorted(plan.items()):
         job, ph = k.split("|")
         name, tag = job.strip("/").split("/")
         role = name.rstrip("0123456789") if name.startswith("pre") else "%s@%s" % (name, "0" if tag.endswith(".0") else ">0")
-        items.append("%s(%s:%s<)" % (role, ph[0], v[0]))
-    return "loop:" + (",".join(sorted(items)) or "none")
+        per.setdefault((role, job), []).append("%s:%s<" % (ph[0], v[0]))
+    order = {"s": 0, "t": 1, "e": 2}
+    items = sorted("%s(%s)" % (r, "+".join(sorted(fs, key=lambda f: order[f[0]]))) for (r, _), fs in per.items())
+    return "loop:" + (",".join(items) or "none")
 
 
 def run_loop(ctx, n, pre, plan, seed, *, stall=12.0, timeout=600.0):
